@@ -12,11 +12,11 @@ FLOATS = (0.0, -0.0, 1.5, -2.25, 1e308, float('inf'), float('-inf'), float('nan'
 STRS = ('', 'a', 'abc', 'héllo', '日本語', 'a\x00b', '12', '1.5', '2023-09-05', 'x' * 40, 'yes', 'null', ' pad ',
         'line\nbreak', '𝒳', 'v1', 'k', 'ß', 'İ', 'e\u0301', '\u200b', 'A' * 300, '\t', 'ǅ', '٣')
 BYTESV = (b'', b'ab', bytearray(b'xy'), b'\x00\xff', b'k')
-DATES = ('2023-09-05', '1999-12-31', '2024-02-29')
-TIMES = ('11:11:11', '00:00:00', '23:59:59.123456', '11:11:11+02:00', '05:06')
+DATES = ('2023-09-05', '1999-12-31', '2024-02-29', '20230905', '2023-W36-2', '2023W362')
+TIMES = ('11:11:11', '00:00:00', '23:59:59.123456', '11:11:11+02:00', '05:06', '111111', 'T05:06')
 DATETIMES = ('2023-09-05T11:11:11', '2023-09-05 11:11:11', '1999-12-31T23:59:59.999999', '2023-09-05T11:11:11+00:00',
-             '2023-09-05')
-PATHS = ('a/b', '/abs/p', '', '.', 'x.txt', '../up', 'sp ace/ü')
+             '2023-09-05', '20230905T111111', '2023-09-05T11', '20230905')
+PATHS = ('a/b', '/abs/p', '', '.', 'x.txt', '../up', 'sp ace/ü', 'data/../x.txt', '/..', '~/data', '~', 'a/./b//c/')
 PATTERNS = ('abc', 'a+b*', '(x|y)', '', r'\d{2,3}', '[a-z]+$')
 BPATTERNS = (b'ab+', b'', bytearray(b'x.y'))
 DECIMALS = (0, 5, -3, '1.5', 2.5, 'NaN', '1e5', '-0', '0.000001', 'Infinity')
